@@ -22,6 +22,7 @@ import errno
 import ipaddress
 import os
 import shutil
+import stat
 import tempfile
 
 from pbt.run import Violation
@@ -286,6 +287,72 @@ class FakeIptables(_Faulty):
 
 
 # --------------------------------------------------------------------------
+class _OsPathProxy(object):
+    """os.path as the module under test sees it: the existence tests go
+    through the proxied stat (as genericpath does with the real one)."""
+
+    def __init__(self, osproxy):
+        self._os = osproxy
+
+    def __getattr__(self, name):
+        return getattr(os.path, name)
+
+    def _mode(self, path):
+        try:
+            return self._os.stat(path).st_mode
+        except (OSError, ValueError):
+            return None
+
+    def exists(self, path):
+        return self._mode(path) is not None
+
+    def isdir(self, path):
+        mode = self._mode(path)
+        return mode is not None and stat.S_ISDIR(mode)
+
+    def isfile(self, path):
+        mode = self._mode(path)
+        return mode is not None and stat.S_ISREG(mode)
+
+
+class OsProxy(object):
+    """Stands for the name `os` inside one module under test.  Everything
+    is the real os, except that `stat` can be armed to fail once with a
+    given errno at its k-th call while the harness holds the window open
+    (= during one garbage_collect / initialize pass)."""
+
+    def __init__(self):
+        self.path = _OsPathProxy(self)
+        self.countdown = None
+        self.errno = None
+        self.window = False
+        self.fired = None
+
+    def __getattr__(self, name):
+        return getattr(os, name)
+
+    def stat(self, path, *args, **kwargs):
+        if self.window and self.countdown is not None:
+            self.countdown -= 1
+            if self.countdown <= 0:
+                self.countdown = None
+                self.fired = errno.errorcode[self.errno]
+                raise OSError(self.errno, os.strerror(self.errno), path)
+        return os.stat(path, *args, **kwargs)
+
+    def arm(self, code, k):
+        self.errno = code
+        self.countdown = max(1, k)
+        self.fired = None
+        self.window = True
+
+    def disarm(self):
+        fired, self.fired = self.fired, None
+        self.countdown = None
+        self.window = False
+        return fired
+
+
 def scratch_base():
     """Where the per-case directory is made (and removed again when the case
     ends).  ext4 under /tmp costs ~20 ms per case in mkdir/rmdir alone, a
@@ -311,6 +378,14 @@ class Engine(object):
         from treadmill import endpoints, rulefile, vipfile
         self._endpoints = endpoints
         self.stats = stats
+        # `os` as seen by the three modules under test (stat faults)
+        self.osp = {'vip': OsProxy(), 'rule': OsProxy(), 'ep': OsProxy()}
+        self._os_patched = [(vipfile, vipfile.os), (rulefile, rulefile.os),
+                            (endpoints, endpoints.os)]
+        vipfile.os = self.osp['vip']
+        rulefile.os = self.osp['rule']
+        endpoints.os = self.osp['ep']
+        self.fs_armed = {}               # comp -> (errno, k) for its next pass
         self.cfg = dict(DEFAULT_CFG)
         self.cfg.update(cfg or {})
 
@@ -368,6 +443,9 @@ class Engine(object):
 
     # ------------------------------------------------------------------
     def close(self):
+        for mod, real in self._os_patched:
+            mod.os = real
+        self._os_patched = []
         if self._patched is not None:
             mod, netdev, iptables = self._patched
             mod.netdev = netdev
@@ -532,6 +610,74 @@ class Engine(object):
         self.flags['contended'] = True
         self.count('contention.%s.%s' % (comp, kind))
 
+    # ---- stat faults during collection passes ---------------------------
+    _ERRNOS = {'EACCES': errno.EACCES, 'EIO': errno.EIO,
+               'ESTALE': errno.ESTALE}
+
+    def _fsfault(self, comp, op):
+        """Arm os.stat (as the module of `comp` sees it) to fail once at the
+        k-th call of that manager's next garbage_collect / initialize."""
+        self.fs_armed[comp] = (self._ERRNOS[op['errno']], op['k'])
+        self.count('fsfault.armed.%s' % comp)
+        self._unchanged(comp)
+
+    def _vip_fsfault(self, op):
+        self._fsfault('vip', op)
+
+    def _rule_fsfault(self, op):
+        self._fsfault('rule', op)
+
+    def _ep_fsfault(self, op):
+        self._fsfault('ep', op)
+
+    def _svc_fsfault(self, op):
+        self._svc_boot()
+        self._fsfault('svc', op)
+
+    def _fs_arm(self, comp):
+        """Open the fault window of a pass; returns the proxy if armed."""
+        arm = self.fs_armed.pop(comp, None)
+        if arm is None:
+            return None
+        proxy = self.osp['vip' if comp == 'svc' else comp]
+        proxy.arm(*arm)
+        return proxy
+
+    def _fs_disarm(self, comp, proxy):
+        if proxy is None:
+            return None
+        fired = proxy.disarm()
+        if fired:
+            self.count('fsfault.fired.%s.%s' % (comp, fired))
+            self.flags['fsfault'] = True
+        else:
+            self.count('fsfault.not-reached.%s' % comp)
+        return fired
+
+    def _collect(self, comp, opname, call, expected, hints):
+        """One garbage_collect / initialize pass.  `expected` is what a
+        complete pass leaves.  A pass that raises because its stat failed
+        may have removed any subset of what a complete pass removes - and
+        nothing else: never an entry whose owner exists."""
+        proxy = self._fs_arm(comp)
+        aborted = False
+        try:
+            call()
+        except OSError:
+            if proxy is None or not proxy.fired:
+                raise
+            aborted = True
+        finally:
+            self._fs_disarm(comp, proxy)
+        if aborted:
+            self.count('fsfault.%s.pass-aborted' % comp)
+            after = read_links(self.dirs[comp])
+            expected = {
+                key: own for key, own in self.model[comp].items()
+                if key in expected or key in after
+            }
+        self.check_all(comp, opname, expected, hints)
+
     # ---- VipMgr -------------------------------------------------------
     def _pool(self, op):
         idx = op.get('p', 0) % len(self.pools)
@@ -641,8 +787,8 @@ class Engine(object):
     def _vip_gc(self, op):
         pool, _net = self._pool(op)
         expected = self._gc_expected('vip')
-        pool.garbage_collect()
-        self.check_all('vip', 'gc', expected, self._GC_HINTS)
+        self._collect('vip', 'gc', pool.garbage_collect, expected,
+                      self._GC_HINTS)
 
     def _vip_init(self, op):
         pool, net = self._pool(op)
@@ -650,9 +796,8 @@ class Engine(object):
             key: own for key, own in self.model['vip'].items()
             if ipaddress.ip_address(key) not in net
         }
-        pool.initialize()
-        self.check_all('vip', 'init', expected,
-                       {'missing': 'removed-foreign', 'extra': 'kept'})
+        self._collect('vip', 'init', pool.initialize, expected,
+                      {'missing': 'removed-foreign', 'extra': 'kept'})
 
     # ---- RuleMgr ------------------------------------------------------
     def _rule(self, idx):
@@ -719,12 +864,12 @@ class Engine(object):
 
     def _rule_gc(self, _op):
         expected = self._gc_expected('rule')
-        self.rules.garbage_collect()
-        self.check_all('rule', 'gc', expected, self._GC_HINTS)
+        self._collect('rule', 'gc', self.rules.garbage_collect, expected,
+                      self._GC_HINTS)
 
     def _rule_init(self, _op):
-        self.rules.initialize()
-        self.check_all('rule', 'init', {}, {'extra': 'kept'})
+        self._collect('rule', 'init', self.rules.initialize, {},
+                      {'extra': 'kept'})
 
     # ---- EndpointsMgr -------------------------------------------------
     def _ep_args(self, slot, idx):
@@ -839,12 +984,14 @@ class Engine(object):
 
     def _ep_gc(self, _op):
         expected = self._gc_expected('ep')
-        self._endpoints.garbage_collect(self.dirs['ep'])
-        self.check_all('ep', 'gc', expected, self._GC_HINTS)
+        self._collect(
+            'ep', 'gc',
+            lambda: self._endpoints.garbage_collect(self.dirs['ep']),
+            expected, self._GC_HINTS)
 
     def _ep_init(self, _op):
-        self.eps.initialize()
-        self.check_all('ep', 'init', {}, {'extra': 'kept'})
+        self._collect('ep', 'init', self.eps.initialize, {},
+                      {'extra': 'kept'})
 
     # ---- NetworkResourceService ---------------------------------------
     def _svc_boot(self):
@@ -1021,8 +1168,13 @@ class Engine(object):
         elif stale:
             self.count('gc.svc.uniform')
         crashed = False
+        proxy = self._fs_arm('svc')
+        fs_fired = None
         try:
-            impl.synchronize()
+            try:
+                impl.synchronize()
+            finally:
+                fs_fired = self._fs_disarm('svc', proxy)
         except Exception:  # pylint: disable=broad-except
             # Seen on the unchanged tree: a replayed create that failed in
             # the device commands leaves a device record without
@@ -1030,7 +1182,8 @@ class Engine(object):
             # process dies (its supervisor starts it again: next 'restart').
             # Not an ownership matter, but only excusable after a failed
             # command in this very start-up.
-            if self._errors() == errors0:
+            # (or when the stat of the vips GC was made to fail)
+            if self._errors() == errors0 and not fs_fired:
                 raise
             crashed = True
             self.svc = None
